@@ -32,7 +32,8 @@ class RealSession:
                  rules="explicit", empty3=False, deny=False, jwt_refresh=False, alias_kwargs=False):
         """rules: how the usage rules reach the provider - "explicit" (grant_config spells max_usage: 1 for codes),
         "implied" (grant_config lists supports_minting / expires_in only: the single use of a code is the library's own
-        default), "per-client" (the same implied rules as token_usage_rules of every client, no grant_config rules)"""
+        default), "per-client" (the same implied rules as token_usage_rules of every client, no grant_config rules),
+        "handler" (no usage rules at all: handler lifetimes and class defaults apply)"""
         self.oidc = oidc
         self.rules = rules
         over = {
@@ -44,7 +45,11 @@ class RealSession:
             over.setdefault(k, {}).update(v)
         eps = {"token": {"revoke_refresh_on_issue": revoke_refresh_on_issue}} if revoke_refresh_on_issue else None
         authz = copy.deepcopy(FIXED_AUTHZ)
-        if rules != "explicit":
+        if rules == "handler":
+            # no usage rule anywhere: the lifetimes are those of the token handlers, what a token may mint is the
+            # library's own default per class (a code: everything, once; a refresh token: access and refresh tokens)
+            authz["kwargs"]["grant_config"].pop("usage_rules")
+        elif rules != "explicit":
             ur = authz["kwargs"]["grant_config"]["usage_rules"]
             ur["authorization_code"].pop("max_usage")
             if rules == "per-client":
@@ -484,7 +489,7 @@ def gen_history(rng, n, focus="mixed"):
         elif r < 0.93:
             plan.append(("revoke_client", rng.random()))
         else:
-            plan.append(("tick", rng.choice([1, 10, 100, 299, 300, 301, 600, 601, 3000, 3601, 50000])))
+            plan.append(("tick", rng.choice([1, 10, 100, 299, 300, 301, 600, 601, 3000, 3600, 3601, 43201, 50000, 86401])))
     return plan
 
 
